@@ -107,6 +107,17 @@ def build_sites(objs, rng):
                 sites["DUPLICATE_FIELD_NAMES"].append(Site("DUPLICATE_FIELD_NAMES", o["file"], line_edit(o["file"], m["line"], lambda s: s + " " + s.strip() if s.strip().endswith(";") else s), where))
             if m["k"] == "if":
                 var, op, val = m["conds"][0]
+                # a NEW nested conditional with the wrong operator, inserted behind the first member of every kind of body of this statement (if body,
+                # each else-if body, else body): `T zz; if (zz <wrong op> ENUMERATOR) { u8 zz2; }` with T the type of this statement's own variable
+                vt = next((mm["ty"]["name"] for mm, _, _ in all_members(o["members"]) if mm["k"] == "field" and mm["name"] == var and mm["ty"]["t"] == "name"), None)
+                if vt in definers and op in ("==", "&") and len(m["conds"]) == 1:
+                    rule_ = "ENUM_HAS_BITWISE_AND" if definers[vt]["kind"] == "enum" else "FLAG_HAS_EQUALS"
+                    bad = "&" if definers[vt]["kind"] == "enum" else "=="
+                    bodies = [("if-body", m["members"])] + [(f"else-if-body", e["members"]) for e in m["elseifs"]] + [("else-body", m["else"] or [])]
+                    for bk, bm in bodies:
+                        if bm and bm[0]["k"] == "field":
+                            snippet = f" {vt} zz_verif_nested; if (zz_verif_nested {bad} {val}) {{ u8 zz_verif_inner; }}"
+                            sites[rule_].append(Site(rule_, o["file"], line_edit(o["file"], bm[0]["line"], lambda s, snippet=snippet: s + snippet if s.strip().endswith(";") else s), where + f" inserted-in {bk}"))
                 if op == "==" :
                     sites["MISSING_ENUMERATOR"].append(Site("MISSING_ENUMERATOR", o["file"], line_edit(o["file"], m["line"], lambda s, val=val: re.sub(r"\b" + re.escape(val) + r"\b", "NO_SUCH_ENUMERATOR_XYZ", s, count=1)), where))
                     if len(m["conds"]) == 1:
@@ -260,12 +271,13 @@ def run(tier, seed):
             # spread over contexts: prefer distinct `where` kinds
             picked, seen_ctx = [], set()
             order = list(range(len(cands)))
-            if rule in ("INCORRECT_OPCODE_FOR_MESSAGE", "OPCODE_HAS_INCORRECT_NAME", "MESSAGE_NOT_IN_INDEX"):
+            if rule in ("INCORRECT_OPCODE_FOR_MESSAGE", "OPCODE_HAS_INCORRECT_NAME", "MESSAGE_NOT_IN_INDEX", "ENUM_HAS_BITWISE_AND", "FLAG_HAS_EQUALS"):
                 # the index rules: one site of EVERY context (message kind, half of a MSG pair, own tags / paste, unused / neighbouring number)
                 by_ctx = collections.defaultdict(list)
                 for i in order:
                     by_ctx[re.sub(r"\b[A-Z][A-Za-z0-9_]+\b", "N", cands[i].where)].append(i)
-                for ctx in sorted(by_ctx)[:24]:
+                prio = lambda cx: (0 if "else-if-body" in cx else 1 if "else-body" in cx else 2 if "inserted-in" in cx else 3, cx)
+                for ctx in sorted(by_ctx, key=prio)[:(24 if rule.endswith(("MESSAGE", "NAME", "INDEX")) else 14)]:
                     i = rng.choice(by_ctx[ctx])
                     picked.append(cands[i]); seen_ctx.add(ctx); order.remove(i)
             for _ in range(min(len(order), 400)):
